@@ -5,7 +5,7 @@ from oracle_util import *  # noqa
 from protocol import from_real
 
 ID = "C18"
-LEAN_MODULE = ["SCoda.Props.C18", "SCoda.Props.Notes"]
+LEAN_MODULE = ["SCoda.Props.C18", "SCoda.Props.Notes", "SCoda.Props.Gaps", "SCoda.Props.WrapTie"]
 LEVEL = "proof"
 CLAUSES = [
     ("pad: events untouched, duration = max(old, n)", ["SCoda.C18.pad_events", "SCoda.C18.pad_duration", "SCoda.C18.pad_ok"]),
@@ -16,6 +16,13 @@ CLAUSES = [
     ("scale by integer k>=1: every onset, duration and the total duration multiplied by k, nothing else changes",
      ["SCoda.C18.scale_events", "SCoda.C18.scale_duration", "SCoda.C18.scale_notes"]),
     ("set_channel: channel of every event changed, nothing else", ["SCoda.C18.channel_events", "SCoda.C18.channel_duration"]),
+    ("at the level of the Sequence wrapper (audit A17): from any state satisfying the wrapper invariant, pad / set_channel / scale(k, quantise_afterwards=False) / cutoff "
+     "succeed, keep the invariant, and BOTH views show the content the list-level clauses describe; the wrapper methods themselves are the translated source "
+     "(WrapTie); the default scale(k) is scale followed by quantise_and_normalise, for which 'durations x k' is refuted (k = 2: [0,30),[40,45) -> [0,36),[80,89), "
+     "model and implementation agree); cutoff with r = 0 is refuted (note-off lands before its note-on) — recorded as finding D22",
+     ["SCoda.Gaps.pad_seq", "SCoda.Gaps.setChannel_seq", "SCoda.Gaps.scale_seq", "SCoda.Gaps.cutoff_seq", "SCoda.Gaps.scale_default_eq",
+      "SCoda.Gaps.scale_default_statement_false", "SCoda.Gaps.cutoff_r0_statement_false",
+      "SCoda.WrapTie.pad_eq", "SCoda.WrapTie.setChannel_eq", "SCoda.WrapTie.scale_eq", "SCoda.WrapTie.cutoff_eq"]),
 ]
 RULE = ("well-formed multi-channel sequences (<=8 notes, ticks<200) x n in {below, at, above duration} / (m, r<=m) / k in 1..8 / "
         "channel 0..15; non-trivial = at least one note and for cutoff a note longer than m")
@@ -42,7 +49,7 @@ def o_cutoff(inp):
     a = [tuple(m) for m in inp["abs"]]
     m_, r = inp["m"], inp["r"]
     pre, _ = abs_timed(sorted(a, key=lambda m: (m[2], m[1], m[0], -1 if m[3] is None else m[3])))
-    if wf_violations(pre) or any(on >= off for (_, _, on, off, _) in notes_of(pre)) or not (1 <= r <= m_):
+    if wf_violations(pre) or any(on >= off for (_, _, on, off, _) in notes_of(pre)) or not (0 <= r <= m_):
         return [("~skip:outside-domain", "")]
     s = P.mk_abs(a)
     s.cutoff(m_, r)
@@ -134,6 +141,11 @@ def setup(ctx):
     ctx.oracle("scale", o_scale)
     ctx.oracle("channel", o_channel)
 
+    def kf_d22(f):
+        # cutoff with a replacement length of 0: the shortened note has its note-off on the tick of its note-on
+        return f["oracle"] == "cutoff" and f["clause"] == "cutoff-notes" and f["input"]["r"] == 0
+    ctx.kf_predicates["D22"] = kf_d22
+
 
 def generate(ctx):
     rng = ctx.rng
@@ -149,7 +161,9 @@ def generate(ctx):
         ctx.check("pad", {"rel": rel, "n": n})
         ctx.corr("pad", P.op_pad(n, rel))
         m_ = rng.choice([1, 5, 12, 24, 40])
-        r = rng.randint(1, m_)
+        r = rng.randint(1, m_) if rng.random() < 0.9 else 0
+        if r == 0:
+            ctx.count("cutoff:r=0")
         ctx.case(("cutoff", a, m_, r), any(nt[3] > m_ for nt in notes2))
         ctx.check("cutoff", {"abs": a, "m": m_, "r": r})
         ctx.corr("cutoff", P.op_cutoff(m_, r, a))
